@@ -57,6 +57,11 @@ CHECKS = {
   text="Lean 4 theorems, parametric in the cipher/integrity pair: protected messages round-trip for all payload lists/keys/IVs; the ICV is the MAC of header..ciphertext; padding law; integrity verified before decryption; for every byte string, anything accepted under a key context has a valid checksum or is IKE_SA_INIT (so ICV tampering is rejected unconditionally, body tampering under MAC separation). Model validated differentially under a toy key context; AES/HMAC suites checked by oracle (independent MAC/padding recomputation, every sampled byte x bit flip).",
   note="Trusted: Lean kernel, extract/, crypto laws CryptoCtx.Sound (dec∘enc = id, length preservation, MAC length) — validated for AES-CBC/HMAC by the oracle; MAC separation is a named hypothesis of c07_tamper_body. The clause that every message emitted after IKE_SA_INIT is fully protected is checked on simulated exchanges (see C08 harness), not proved here.",
   technique="Lean 4 proof (list algebra over the serialised chain, crypto as parameter record with laws) + differential correspondence", ref="DESIGN.md §5 C07"),
+ 'C17': dict(
+  text="Lean 4 theorems over the controller model, for every handler instance: the loop-iteration function is total (every table, clock reading and event — datagram of any bytes from any address, represented by its two parse outcomes; ACQUIRE/EXPIRE of any field values; control connection; failing transmission — yields a table); process_message never lets an exception out (whatever a handler raises is contained by _process_request/_process_response), so a datagram routed to an existing IKE_SA never interrupts a round; the only datagrams that do are those without a parsable header or IKE_SA_INIT requests without configuration, and they change nothing; the retransmission timer is safe whenever a request-outstanding state has a stored request; frame: a datagram leaves every IKE_SA before its slot exactly as it was. Since the repair of main_loop every exception of a round is contained by the loop. Oracle: the REAL main_loop on a fake OS is fed ~60 kinds of hostile datagrams and kernel events at 7 stages of a legitimate session at either endpoint, a transmission failure at every send and a kernel refusal at NEWSA requests: the loop survives, each iteration returns within a bounded number of executed lines, and a legitimate session (the running one or the next attempt) completes.",
+  note="Trusted: Lean kernel; controller model validated by replay. Real sockets, select(), signals and scheduling are outside the model (partial): 'comes back within bounded time' is measured as executed lines per iteration on the explored events, and follows for the model from totality plus the parser's no-hang theorem (C06). Three genuine defects were repaired in /repo (loop not containing exceptions; unparsable IKE_SA_INIT requests leaving INITIAL entries; ACQUIRE re-using half-open responder IKE_SAs).",
+  technique="Lean 4 proof (case analysis over the controller model; totality) + per-iteration replay correspondence + hostile-event oracle through the real main_loop with fault injection", ref="DESIGN.md §5 C17"),
+
 }
 
 def main():
